@@ -16,7 +16,7 @@ package csv
 // body is not verified.
 //@ func BOMAwareCSVReader
 //@   trusted
-//@   ensures result != nil && fresh(result) && !result.ReuseRecord
+//@   ensures result != nil && fresh(result) && !result.ReuseRecord && result.FieldsPerRecord == 0
 
 //@ func New
 //@   props C01 C05
@@ -85,7 +85,7 @@ package csv
 
 //@ func (*File).NextRow
 //@   props C01 C05 C09
-//@   requires f != nil && f.csvReader != nil && len(f.headerContent) == nfields(f.csvReader)
+//@   requires f != nil && f.csvReader != nil && len(f.headerContent) == nfields(f.csvReader) && f.csvReader.FieldsPerRecord == 0
 //@   ensures [row] result ==> rowShape(f) && len(f.currentRow.missingKeys) == 0 && cap(f.currentRow.missingKeys) == 0 && f.rowNumber == old(f.rowNumber) + 1
 //@   ensures [cells-storage] result ==> obj(f.currentRow.cells) == obj(f.csvReader) || fresh(f.currentRow.cells)
 //@   ensures [same-reader] f.csvReader == old(f.csvReader) && f.headerMap == old(f.headerMap) && f.headerContent == old(f.headerContent)
@@ -95,7 +95,8 @@ package csv
 //@   assigns f.currentRow, f.rowNumber, f.ioErr, *f.currentRow, objcells(f.csvReader, "string")
 
 // fileOK: the representation invariant of *File that New establishes and every method preserves.
-//@ pure func fileOK(f *File) bool = headerOK(f) && f.csvReader != nil && len(f.headerContent) == nfields(f.csvReader)
+// (the reader keeps checking that every record has as many fields as the header: FieldsPerRecord stays 0)
+//@ pure func fileOK(f *File) bool = headerOK(f) && f.csvReader != nil && len(f.headerContent) == nfields(f.csvReader) && f.csvReader.FieldsPerRecord == 0
 
 //@ func (*File).MissingRowKeys
 //@   props C05 C09
